@@ -437,6 +437,33 @@ def check_gc(ctx, f, gcs, judged, k):
             left, right, cl = right, left, cr
             op = {'<': '>', '>': '<', '<=': '>=', '>=': '<='}[op]
         if cl is None:
+            # A+T written as the complement of G+C:  len(s) - (G+C)  >  (1 - lo) * k ; taken against k instead of len(s) it counts
+            # the missing symbols of a short string as A/T
+            from .repair import affine as _aff
+            for L, R, o in ((left, right, op), (right, left, {'<': '>', '>': '<', '<=': '>=', '>=': '<='}.get(op))):
+                a = _aff(L)
+                if not a or o is None:
+                    continue
+                cnt = {x: v for x, v in a.items() if x != 1 and x[0] == 'call' and x[1][0] == 'attr' and x[1][2] == 'count'}
+                lets = sorted(x[2][0][1] for x in cnt if len(x[2]) == 1 and x[2][0][0] == 'c')
+                srcs = {x[1][1] for x in cnt}
+                rest = {x: v for x, v in a.items() if x not in cnt and not (x == 1 and v == 0)}
+                if lets == ['C', 'G'] and set(cnt.values()) == {-1} and len(srcs) == 1 and R[0] == 'bin' and R[1] == '*' and \
+                        ('bin', '-', ('c', 1), lo) in (R[2], R[3]) and k in (R[2], R[3]):
+                    src_ = next(iter(srcs))
+                    if rest == {('call', ('g', 'builtins.len'), (src_,), ()): 1}:
+                        n['short'] += 1
+                        run.ok('R-ORD', f, 'short:AT-upper', nd.lineno, 'A+T taken as len(s) - (G+C)')
+                    elif rest == {k: 1}:
+                        n['short'] += 1
+                        run.refute('R-ORD', f, 'short:AT-upper', nd.lineno,
+                                   'the A+T count of a short string is computed as observed_length - (G+C): the symbols that are still '
+                                   'missing are counted as A/T, so a prefix that can be completed to a valid window is rejected',
+                                   inputs='strings shorter than the window with a positive lower GC bound')
+                    cl = 'handled'
+                    break
+            if cl == 'handled':
+                continue
             # completability form of the short-string test:  G+C + (k - len(s))  <  lo * k
             from .repair import affine
             for L, R, o in ((left, right, op), (right, left, {'<': '>', '>': '<', '<=': '>=', '>=': '<='}.get(op))):
